@@ -187,7 +187,10 @@ def fmt_line(fid, d, style):
     return f"(1234567890.123456) can0 {ident}##1{hx}"  # CAN-FD log format
 
 
-JUNK_LINES = ["", "   ", "\t", "# capture restarted", "can0 garbage"]
+# lines which carry no data bytes: blank, comments, and what candump prints for remote (RTR) frames and for empty
+# frames -- these look like a frame up to the data field
+JUNK_LINES = ["", "   ", "\t", "# capture restarted", "can0 garbage",
+              "  can0  7E0   [0]  remote request", "  can0  123   [8]  remote request", "  can0  7E8   [0] "]
 
 
 def log_text(frames, style_of, junk=None, eol="\n"):
